@@ -14,7 +14,7 @@ THEOREMS = ["BinObj." + t for t in (
     "binCount_eq_spec", "lastEmpty_eq_spec", "empty_eq_spec", "lastSmall_eq_spec", "small_eq_spec",
     "sweep_eq_skyArea", "lastSkyline_eq_spec", "lowestSkyline_eq_spec", "obj_eq_spec",
     "scratch_irrelevant", "noOOB", "noOOB_inSpace", "oob_iff",
-    "bins_le_nItems", "tie_in_range", "to_bin_count_obj", "lbGeo_spec", "lbGeo_le_bins",
+    "bins_le_nItems", "tie_in_range", "to_bin_count_obj", "bin_counts_agree", "lbGeo_spec", "lbGeo_le_bins",
     "tie_one_bin", "tie_ge_smallest", "obj_within_bounds", "obj_within_bounds_geo",
     "fewer_bins_strictly_better", "areaIn_le_skyArea", "spec_range", "int64_wrap_witness",
 )]
@@ -317,11 +317,13 @@ def streams(ck: Check) -> None:
 
     # (2) exhaustive small scope: every feasible packing of tiny instances
     tiny = tiny_instances(3, 3)
-    tiny = rng.sample(tiny, 10 if q else 80)
+    tiny = rng.sample(tiny, 10 if q else 300)
+    if not q:   # a few 4x4-scope instances as well
+        tiny += rng.sample([t for t in tiny_instances(4, 3) if max(t[0], t[1]) == 4], 12)
     for W, H, items in tiny:
         impl = Impl(W, H, items)
         gid[0] += 1
-        packs = all_feasible_packings(W, H, items, 250 if q else 3000, rng)
+        packs = all_feasible_packings(W, H, items, 250 if q else 2500, rng)
         ck.count("exhaustive_instances")
         for rows, k in packs:
             if rng.random() < 0.5:
@@ -355,13 +357,13 @@ def streams(ck: Check) -> None:
     family("int64-range", 10**12, 9 * 10**5, [[1, 1, 10]], [[1, i + 1, 0, 0, 1, 1] for i in range(10)], 10, 0, 0, 0)
 
     # (3) structured random: independent guillotine layouts + decoder outputs + in-space garbage
-    for _ in range(60 if q else 1500):
+    for _ in range(60 if q else 6000):
         W, H = rng.choice([(rng.randint(2, 12), rng.randint(2, 12)), (rng.randint(5, 60), rng.randint(5, 60)),
                            (rng.randint(1, 4), rng.randint(20, 40)), (rng.randint(100, 300), rng.randint(2, 9))])
         k = rng.choice([1, 1, 2, 2, 3, 4, 6])
         items, rows = guillotine_packing(rng, W, H, k, rng.randint(1, 4), rng.random() < 0.4)
         family("guillotine", W, H, items, rows, k, 3, 1, 3)
-    for _ in range(30 if q else 600):
+    for _ in range(30 if q else 2500):
         W, H = rng.choice([(rng.randint(2, 12), rng.randint(2, 12)), (rng.randint(5, 60), rng.randint(5, 60))])
         items = rand_instance(rng, W, H)
         try:
@@ -374,9 +376,9 @@ def streams(ck: Check) -> None:
         inspace("inspace", impl, ctx[-1]["rows"], 2)
     # shipped instances through both decoders
     names = list(Instance.list_resources())
-    for nm in rng.sample(names, 6 if q else 80):
+    for nm in rng.sample(names, 6 if q else 250):
         inst = Instance.from_resource(nm)
-        if inst.n_items > (60 if q else 200):
+        if inst.n_items > (60 if q else 250):
             continue
         items = [[int(a) for a in r] for r in inst]
         impl = Impl(int(inst.bin_width), int(inst.bin_height), items)
